@@ -4,17 +4,22 @@ from props import drawgen
 
 RULE = ("set_vertical_scroll_region(top, bottom) with both arguments from {0,1,FH-1,FH,FH+1,32767,32768,65535-FH,65534,65535} x random, and "
         "set_vertical_scroll_offset over boundary + random u16, on every built-in framebuffer height plus heights 1, 3, 5, 60, 200, 50000, "
-        "65535 (external models), in all 8 orientations, debug and release; non-trivial = top+bottom > FH or >= 65536 or an offset >= 256")
+        "65535 (external models), in all 8 orientations, debug and release, at the Interface boundary and (one case in four) below the real SpiInterface with 2..7-byte buffers / ParallelInterface, parameters decoded from the pin log; non-trivial = top+bottom > FH or >= 65536 or an offset >= 256")
 TRUSTED = ["Corr/Draw.v scroll_ok: decoded VSCRDEF parameters t+s+b = FH, pass-through when the sum fits"]
 ASSUMPTIONS = []
 PER_SHARD = 60
+CASE_TYPE = "(lcase * lout)"
+IMPORTS = "Require Import Corr.DrawL."
 
 
 def gen(rng, tier, info):
     n = 1500 if tier == "quick" else 15000
     cases = []
     for k in range(n):
-        pc, m, lw, lh, cmax = drawgen.config(rng, info)
+        # one case in four below the real transports (SPI buffers of 2..7 bytes — shorter than the six VSCRDEF
+        # parameter bytes — and both parallel buses): the parameters are read back from the decoded pin log
+        l2 = k % 4 == 3
+        pc, m, lw, lh, cmax = drawgen.l2_config(rng, info) if l2 else drawgen.config(rng, info)
         FH = m["fh"]
         pool = [0, 1, FH - 1, FH, FH + 1, 32767, 32768, 65535 - FH, 65534, 65535, FH // 2, rng.range(0, 65535), rng.range(0, FH)]
         pool = [min(65535, max(0, v)) for v in pool]
@@ -32,9 +37,9 @@ def gen(rng, tier, info):
         pc["ops"] = ops
         pc["tags"] = [pc["md"], "FH=%d" % FH] + ["sum>65535" if (op[0] == "vr" and op[1] + op[2] > 65535) else "sum>FH" if (op[0] == "vr" and op[1] + op[2] > FH) else op[0] for _, op in ops]
         pc["nontrivial"] = nt
-        cases.append(vlib.pcase(pc))
+        cases.append(drawgen.wrap_l(vlib.pcase(pc), l2))
     return cases
 
 
-def shrink(case):
-    return drawgen.shrink_prog(case)
+wrap_impl = drawgen.wrap_impl_l
+shrink = drawgen.shrink_l
